@@ -65,10 +65,16 @@ var c12Constructs = map[string]string{
 	"not":    "x := !cv()",
 	"and":    "x := (cv() && r())",
 	"or":     "x := (cv() || r())",
+	// the compound assignments are the same short-cut operators: `x ||= d` is `x := x || d`
+	"orasg":  "x := cv()\nx ||= r()",
+	"andasg": "x := cv()\nx &&= r()",
 }
 
+// the construct the model is asked about
+var c12ModelConstruct = map[string]string{"orasg": "or", "andasg": "and"}
+
 func genC12(c *Ctx) {
-	names := []string{"ifelse", "if", "gret", "graise", "gyield", "gdefer", "not", "and", "or"}
+	names := []string{"ifelse", "if", "gret", "graise", "gyield", "gdefer", "not", "and", "or", "orasg", "andasg"}
 	for _, v := range c12Pool() {
 		for _, cn := range names {
 			src := "t := {|| \"T\".p; 'then}\ne := {|| \"E\".p; 'else}\nr := {|| \"R\".p; 'right}\nc := " + v.src + "\ncv := {|| \"C\".p; c}\n" + c12Constructs[cn] + "\n"
@@ -104,7 +110,11 @@ func genC12(c *Ctx) {
 					}
 				}
 			}
-			c.Em.Emit(Rec{Case: fmt.Sprintf("C12 %s %s", v.desc, cn), Impl: strings.Join(lines, ",") + "=>" + res, Src: "c := " + v.src + "; " + c12Constructs[cn],
+			mcn := cn
+			if m, ok := c12ModelConstruct[cn]; ok {
+				mcn = m
+			}
+			c.Em.Emit(Rec{Case: fmt.Sprintf("C12 %s %s", v.desc, mcn), Impl: strings.Join(lines, ",") + "=>" + res, Src: "c := " + v.src + "; " + c12Constructs[cn],
 				NT: true, Tags: []string{cn, strings.SplitN(v.desc, ":", 2)[0]}})
 		}
 	}
